@@ -1,6 +1,19 @@
 package main
 
-// Frame obligations decided on the SSA call graph (who may call / write what).
+import (
+	"fmt"
+	"go/constant"
+	"go/types"
+	"sort"
+	"strings"
+
+	"golang.org/x/tools/go/ssa"
+	"golang.org/x/tools/go/ssa/ssautil"
+)
+
+// Frame obligations decided on the SSA of the whole repository: who may call, write or reach what.
+// They complement the per-function contracts (which are path sensitive) with closed-world facts that a
+// modular contract cannot state: "the only caller of X is Y", "nothing in these packages calls Z".
 
 type FrameResult struct {
 	Name   string
@@ -16,7 +29,29 @@ type FrameCheck struct {
 	Run      func(p *Program, cs *ContractSet) []*FrameResult
 }
 
-var frameChecks []*FrameCheck
+const modPfx = repoModule + "/"
+
+var consensusPkgs = []string{
+	modPfx + "x/enterprise", modPfx + "x/enterprise/keeper", modPfx + "x/enterprise/ante", modPfx + "x/enterprise/types", modPfx + "x/enterprise/exported",
+	modPfx + "x/wrkchain", modPfx + "x/wrkchain/keeper", modPfx + "x/wrkchain/ante", modPfx + "x/wrkchain/types", modPfx + "x/wrkchain/exported",
+	modPfx + "x/beacon", modPfx + "x/beacon/keeper", modPfx + "x/beacon/ante", modPfx + "x/beacon/types", modPfx + "x/beacon/exported",
+	modPfx + "x/stream", modPfx + "x/stream/keeper", modPfx + "x/stream/types",
+	modPfx + "ante", modPfx + "app",
+}
+
+var keeperPkgs = []string{modPfx + "x/enterprise/keeper", modPfx + "x/wrkchain/keeper", modPfx + "x/beacon/keeper", modPfx + "x/stream/keeper"}
+
+var frameChecks = []*FrameCheck{
+	{Name: "no-nondeterminism", Props: []string{"C01"}, Packages: consensusPkgs, Run: frameNondeterminism},
+	{Name: "no-package-level-writes", Props: []string{"C01", "C16"}, Packages: consensusPkgs, Run: frameGlobalWrites},
+	{Name: "keepers-hold-no-memory-state", Props: []string{"C01", "C09", "C16"}, Packages: keeperPkgs, Run: frameKeeperFields},
+	{Name: "mint-and-burn-call-sites", Props: []string{"C02"}, Packages: consensusPkgs, Run: frameMintBurn},
+	{Name: "authority-and-keeper-wiring", Props: []string{"C13"}, Packages: consensusPkgs, Run: frameWiring},
+	{Name: "escrow-accounts-blocked", Props: []string{"C04", "C10"}, Packages: []string{modPfx + "app"}, Run: frameBlocked},
+	{Name: "queries-are-read-only", Props: []string{"C20", "C17"}, Packages: keeperPkgs, Run: frameReadOnlyQueries},
+	{Name: "locked-efund-writers", Props: []string{"C05", "C04"}, Packages: consensusPkgs, Run: frameLockedWriters},
+	{Name: "store-reached-only-through-key-builders", Props: []string{"C18"}, Packages: keeperPkgs, Run: frameStoreKeys},
+}
 
 func frameChecksFor(prop string) []*FrameCheck {
 	var out []*FrameCheck
@@ -28,4 +63,635 @@ func frameChecksFor(prop string) []*FrameCheck {
 		}
 	}
 	return out
+}
+
+// ---------------------------------------------------------------- helpers
+
+func isTestOrTooling(fn *ssa.Function, p *Program) bool {
+	if fn.Pkg == nil {
+		return true
+	}
+	path := fn.Pkg.Pkg.Path()
+	for _, seg := range []string{"/simulation", "/client", "/testutil", "/cmd/", "/migrate", "/legacy"} {
+		if strings.Contains(path+"/", seg+"/") || strings.HasSuffix(path, seg) {
+			return true
+		}
+	}
+	pos := p.fset.Position(fn.Pos())
+	if strings.HasSuffix(pos.Filename, "_test.go") || strings.HasSuffix(pos.Filename, ".pb.go") || strings.HasSuffix(pos.Filename, ".pb.gw.go") {
+		return true
+	}
+	if strings.HasSuffix(pos.Filename, "module_simulation.go") || strings.HasSuffix(pos.Filename, "test_helpers.go") || strings.HasSuffix(pos.Filename, "test_common.go") {
+		return true
+	}
+	return false
+}
+
+func repoFuncsIn(p *Program, pkgs []string) []*ssa.Function {
+	want := map[string]bool{}
+	for _, k := range pkgs {
+		want[k] = true
+	}
+	var out []*ssa.Function
+	for fn := range ssautil.AllFunctions(p.prog) {
+		if fn.Pkg == nil || !want[fn.Pkg.Pkg.Path()] || len(fn.Blocks) == 0 {
+			continue
+		}
+		if fn.Synthetic != "" && !strings.Contains(fn.Synthetic, "package initializer") {
+			continue
+		}
+		if isTestOrTooling(fn, p) {
+			continue
+		}
+		out = append(out, fn)
+	}
+	sort.Slice(out, func(i, j int) bool { return out[i].String() < out[j].String() })
+	return out
+}
+
+type callSite struct {
+	fn     *ssa.Function
+	instr  ssa.Instruction
+	callee string // static callee string or "(iface).Method" for invokes
+	invoke bool
+}
+
+func callsOf(fn *ssa.Function) []callSite {
+	var out []callSite
+	for _, b := range fn.Blocks {
+		for _, in := range b.Instrs {
+			ci, ok := in.(ssa.CallInstruction)
+			if !ok {
+				continue
+			}
+			com := ci.Common()
+			if com.IsInvoke() {
+				out = append(out, callSite{fn, in, "(" + com.Value.Type().String() + ")." + com.Method.Name(), true})
+			} else if c := com.StaticCallee(); c != nil {
+				out = append(out, callSite{fn, in, c.String(), false})
+			}
+		}
+	}
+	return out
+}
+
+func posOf(p *Program, in ssa.Instruction) string {
+	pos := p.fset.Position(in.Pos())
+	return fmt.Sprintf("%s:%d", strings.TrimPrefix(pos.Filename, "/repo/"), pos.Line)
+}
+
+func res(name, what string, bad []string) *FrameResult {
+	sort.Strings(bad)
+	if len(bad) == 0 {
+		return &FrameResult{Name: "frame:" + name, What: what, OK: true, Detail: "holds"}
+	}
+	return &FrameResult{Name: "frame:" + name, What: what, OK: false, Detail: strings.Join(bad, "; ")}
+}
+
+// ---------------------------------------------------------------- C01
+
+var deniedCalls = []string{"time.Now", "time.Since", "time.Until", "time.After", "time.Sleep", "time.NewTimer", "time.NewTicker", "time.Tick",
+	"math/rand.", "crypto/rand.", "os.", "runtime.NumCPU", "runtime.GOMAXPROCS", "runtime.NumGoroutine", "net.", "net/http.", "(*math/rand.", "unsafe.",
+	"reflect.MapKeys", "(reflect.Value).MapKeys", "(reflect.Value).MapRange", "os/exec.", "syscall."}
+
+func isDenied(callee string) bool {
+	for _, d := range deniedCalls {
+		if strings.HasPrefix(callee, d) {
+			return true
+		}
+	}
+	return false
+}
+
+// frameAllow: sites that are allowed with a stated reason (checked elsewhere or harmless by construction).
+var frameAllow = map[string]string{
+	"msgServer).RecordBeaconTimestamp|time.Now":           "unreachable: the contract of RecordBeaconTimestamp requires msg.SubmitTime != 0 (ValidateBasic postcondition) and the executor proves the call infeasible (obligation frame:denied-call)",
+	"app.BlockedAddresses|map-range":                      "builds a set; insertion order does not matter",
+	"app.GetMaccPerms|map-range":                          "copies a map; order does not matter",
+	"(*" + modPfx + "app.App).ModuleAccountAddrs|map-range": "builds a set; order does not matter",
+	"ante.checkWrkChainMaxSlots|map-range":                "returns an error of the same code whichever offending id is met first; no state change",
+	"ante.checkBeaconMaxSlots|map-range":                  "returns an error of the same code whichever offending id is met first; no state change",
+}
+
+func allowed(fn *ssa.Function, what string) (string, bool) {
+	for k, why := range frameAllow {
+		parts := strings.SplitN(k, "|", 2)
+		if parts[1] == what && strings.HasSuffix(fn.String(), parts[0]) {
+			return why, true
+		}
+	}
+	return "", false
+}
+
+func frameNondeterminism(p *Program, cs *ContractSet) []*FrameResult {
+	var denied, conc, floats, mapRanges []string
+	for _, fn := range repoFuncsIn(p, consensusPkgs) {
+		if fn.Name() == "init" || strings.HasPrefix(fn.Name(), "init#") {
+			continue
+		}
+		// app: only the consensus entry points and what they own; the rest of app.go is start-up wiring
+		if fn.Pkg.Pkg.Path() == modPfx+"app" {
+			n := fn.Name()
+			if !(n == "BeginBlocker" || n == "EndBlocker" || n == "InitChainer" || n == "BlockedAddresses" || n == "ModuleAccountAddrs") {
+				continue
+			}
+		}
+		for _, c := range callsOf(fn) {
+			if isDenied(c.callee) {
+				short := c.callee
+				if _, ok := allowed(fn, short); ok {
+					continue
+				}
+				if onlyFeedsTelemetry(c.instr) {
+					continue // the value is consumed by cosmos-sdk telemetry only (metrics, not state)
+				}
+				denied = append(denied, fmt.Sprintf("%s calls %s at %s", shortFn(fn.String()), c.callee, posOf(p, c.instr)))
+			}
+		}
+		for _, b := range fn.Blocks {
+			for _, in := range b.Instrs {
+				switch x := in.(type) {
+				case *ssa.Go, *ssa.Select, *ssa.Send, *ssa.MakeChan:
+					conc = append(conc, fmt.Sprintf("%s uses %T at %s", shortFn(fn.String()), in, posOf(p, in)))
+				case *ssa.BinOp:
+					if bt, ok := x.X.Type().Underlying().(*types.Basic); ok && bt.Info()&types.IsFloat != 0 {
+						floats = append(floats, fmt.Sprintf("%s: floating-point %s at %s", shortFn(fn.String()), x.Op, posOf(p, in)))
+					}
+				case *ssa.Convert:
+					ft, _ := x.X.Type().Underlying().(*types.Basic)
+					tt, _ := x.Type().Underlying().(*types.Basic)
+					if (ft != nil && ft.Info()&types.IsFloat != 0) || (tt != nil && tt.Info()&types.IsFloat != 0) {
+						if _, isConst := x.X.(*ssa.Const); !isConst {
+							floats = append(floats, fmt.Sprintf("%s: floating-point conversion at %s", shortFn(fn.String()), posOf(p, in)))
+						}
+					}
+				case *ssa.Range:
+					if _, isMap := x.X.Type().Underlying().(*types.Map); isMap {
+						if _, ok := allowed(fn, "map-range"); !ok {
+							mapRanges = append(mapRanges, fmt.Sprintf("%s ranges over a map at %s", shortFn(fn.String()), posOf(p, in)))
+						}
+					}
+				}
+			}
+		}
+	}
+	return []*FrameResult{
+		res("C01.no-wall-clock-randomness-os", "no call to wall clock, randomness, OS, network, reflection-over-maps from consensus code", denied),
+		res("C01.no-goroutines-channels", "no goroutine, select or channel operation in consensus code", conc),
+		res("C01.no-floating-point", "no floating-point instruction in consensus code", floats),
+		res("C01.map-iteration-order-insensitive", "every range over a map is on the stated allow list (order-insensitive by construction)", mapRanges),
+	}
+}
+
+func frameGlobalWrites(p *Program, cs *ContractSet) []*FrameResult {
+	var bad []string
+	for _, fn := range repoFuncsIn(p, consensusPkgs) {
+		if fn.Name() == "init" || strings.HasPrefix(fn.Name(), "init#") {
+			continue
+		}
+		for _, b := range fn.Blocks {
+			for _, in := range b.Instrs {
+				if s, ok := in.(*ssa.Store); ok {
+					if g, ok := s.Addr.(*ssa.Global); ok {
+						bad = append(bad, fmt.Sprintf("%s stores to %s at %s", shortFn(fn.String()), g.Name(), posOf(p, in)))
+					}
+				}
+			}
+		}
+	}
+	return []*FrameResult{res("no-store-to-package-level-variable", "no function outside package initialisers assigns a package-level variable (no hidden state, constants of contracts stay constant)", bad)}
+}
+
+func frameKeeperFields(p *Program, cs *ContractSet) []*FrameResult {
+	var bad []string
+	for _, pk := range keeperPkgs {
+		sp := p.byPath[pk]
+		if sp == nil {
+			continue
+		}
+		obj := sp.Pkg.Scope().Lookup("Keeper")
+		if obj == nil {
+			bad = append(bad, pk+": no Keeper type")
+			continue
+		}
+		st, ok := obj.Type().Underlying().(*types.Struct)
+		if !ok {
+			continue
+		}
+		for i := 0; i < st.NumFields(); i++ {
+			f := st.Field(i)
+			switch f.Type().Underlying().(type) {
+			case *types.Map, *types.Slice, *types.Chan, *types.Pointer, *types.Array:
+				bad = append(bad, fmt.Sprintf("%s.Keeper.%s has type %s (in-memory state outside the store)", shortPkg(pk), f.Name(), f.Type()))
+			}
+		}
+	}
+	return []*FrameResult{res("keeper-fields-immutable-handles", "keeper structs hold only store keys, codecs, other keepers and strings: no map, slice, pointer or channel field that could carry state outside the revertible store", bad)}
+}
+
+// ---------------------------------------------------------------- C02
+
+func frameMintBurn(p *Program, cs *ContractSet) []*FrameResult {
+	var badMint, badBurn, badIface []string
+	all := repoFuncsIn(p, allRepoPkgs(p))
+	for _, fn := range all {
+		for _, c := range callsOf(fn) {
+			if strings.HasSuffix(c.callee, ").MintCoins") || strings.HasSuffix(c.callee, ".MintCoins") {
+				if !strings.HasSuffix(fn.String(), "x/enterprise/keeper.Keeper).MintCoinsAndLock") {
+					badMint = append(badMint, fmt.Sprintf("%s calls %s at %s", shortFn(fn.String()), c.callee, posOf(p, c.instr)))
+				}
+			}
+			if strings.Contains(c.callee, ").BurnCoins") || strings.HasSuffix(c.callee, ".BurnCoins") {
+				badBurn = append(badBurn, fmt.Sprintf("%s calls %s at %s", shortFn(fn.String()), c.callee, posOf(p, c.instr)))
+			}
+		}
+	}
+	// keeper interfaces of the other modules must not even offer mint/burn
+	for _, pk := range []string{modPfx + "x/stream/types", modPfx + "x/wrkchain/ante", modPfx + "x/beacon/ante", modPfx + "ante", modPfx + "x/enterprise/ante"} {
+		sp := p.byPath[pk]
+		if sp == nil {
+			continue
+		}
+		for _, name := range sp.Pkg.Scope().Names() {
+			it, ok := sp.Pkg.Scope().Lookup(name).Type().Underlying().(*types.Interface)
+			if !ok {
+				continue
+			}
+			for i := 0; i < it.NumMethods(); i++ {
+				m := it.Method(i).Name()
+				if m == "MintCoins" || m == "BurnCoins" {
+					badIface = append(badIface, fmt.Sprintf("%s.%s offers %s", shortPkg(pk), name, m))
+				}
+			}
+		}
+	}
+	return []*FrameResult{
+		res("mint-only-in-MintCoinsAndLock", "the only call of MintCoins in non-test code is in enterprise Keeper.MintCoinsAndLock", badMint),
+		res("no-burn", "no call of BurnCoins anywhere in the repository", badBurn),
+		res("other-modules-cannot-mint", "the bank-keeper interfaces of stream, wrkchain/beacon ante, ante and enterprise ante contain neither MintCoins nor BurnCoins", badIface),
+	}
+}
+
+func allRepoPkgs(p *Program) []string {
+	var out []string
+	for path := range p.byPath {
+		if strings.HasPrefix(path, repoModule) {
+			out = append(out, path)
+		}
+	}
+	return out
+}
+
+// ---------------------------------------------------------------- C13 wiring
+
+// traceModuleAddress: is v the string of authtypes.NewModuleAddress(<const name>)?
+func traceModuleAddressString(v ssa.Value) (string, bool) {
+	call, ok := v.(*ssa.Call)
+	if !ok {
+		return "", false
+	}
+	c := call.Common().StaticCallee()
+	if c == nil || !strings.HasSuffix(c.String(), "types.AccAddress).String") {
+		return "", false
+	}
+	inner, ok := call.Common().Args[0].(*ssa.Call)
+	if !ok {
+		return "", false
+	}
+	ic := inner.Common().StaticCallee()
+	if ic == nil || !strings.HasSuffix(ic.String(), "x/auth/types.NewModuleAddress") {
+		return "", false
+	}
+	k, ok := inner.Common().Args[0].(*ssa.Const)
+	if !ok || k.Value == nil || k.Value.Kind() != constant.String {
+		return "", false
+	}
+	return constant.StringVal(k.Value), true
+}
+
+func frameWiring(p *Program, cs *ContractSet) []*FrameResult {
+	var badAuth, badImpl, badFee []string
+	found := map[string]bool{}
+	for _, fn := range repoFuncsIn(p, []string{modPfx + "app"}) {
+		for _, c := range callsOf(fn) {
+			for _, m := range []string{"enterprise", "wrkchain", "beacon", "stream"} {
+				if c.callee == modPfx+"x/"+m+"/keeper.NewKeeper" {
+					found[m] = true
+					args := c.instr.(ssa.CallInstruction).Common().Args
+					last := args[len(args)-1]
+					name, ok := traceModuleAddressString(last)
+					if !ok || name != "gov" {
+						badAuth = append(badAuth, fmt.Sprintf("%s keeper authority at %s is not NewModuleAddress(\"gov\").String()", m, posOf(p, c.instr)))
+					}
+					if m == "stream" {
+						fc, ok := args[4].(*ssa.Const)
+						if !ok || fc.Value == nil || constant.StringVal(fc.Value) != "fee_collector" {
+							badFee = append(badFee, "stream keeper fee collector name is not the constant \"fee_collector\" at "+posOf(p, c.instr))
+						}
+					}
+				}
+			}
+		}
+	}
+	for _, m := range []string{"enterprise", "wrkchain", "beacon", "stream"} {
+		if !found[m] {
+			badAuth = append(badAuth, "no NewKeeper call for "+m+" found in app")
+		}
+	}
+	// interface -> concrete keeper assumed by the contracts (`implements`) must match every conversion in non-test code
+	for fn := range ssautil.AllFunctions(p.prog) {
+		if fn.Pkg == nil || !p.isRepoPkg(fn.Pkg.Pkg.Path()) || isTestOrTooling(fn, p) {
+			continue
+		}
+		for _, b := range fn.Blocks {
+			for _, in := range b.Instrs {
+				mi, ok := in.(*ssa.MakeInterface)
+				if !ok {
+					continue
+				}
+				want, has := cs.Impls[mi.Type().String()]
+				if has && mi.X.Type().String() != want {
+					badImpl = append(badImpl, fmt.Sprintf("%s converts %s to %s at %s (contracts assume %s)", shortFn(fn.String()), mi.X.Type(), mi.Type(), posOf(p, in), want))
+				}
+			}
+		}
+	}
+	return []*FrameResult{
+		res("authority-is-gov-module", "all four NewKeeper calls in app receive authtypes.NewModuleAddress(\"gov\").String() as authority", badAuth),
+		res("stream-fee-collector-name", "the stream keeper's fee collector is the fee_collector module (distinct from the stream escrow)", badFee),
+		res("interface-implementations-as-assumed", "every conversion to a keeper interface named in an `implements` directive uses the concrete keeper the contracts assume", badImpl),
+	}
+}
+
+// ---------------------------------------------------------------- C04 / C10 blocked escrow accounts
+
+func frameBlocked(p *Program, cs *ContractSet) []*FrameResult {
+	var bad []string
+	sp := p.byPath[modPfx+"app"]
+	if sp == nil {
+		return []*FrameResult{res("escrow-accounts-blocked", "app package loaded", []string{"app package not loaded"})}
+	}
+	// maccPerms keys from the package initialiser
+	keys := map[string]bool{}
+	if initFn := sp.Func("init"); initFn != nil {
+		for _, b := range initFn.Blocks {
+			for _, in := range b.Instrs {
+				if mu, ok := in.(*ssa.MapUpdate); ok {
+					if k, ok := mu.Key.(*ssa.Const); ok && k.Value != nil && k.Value.Kind() == constant.String {
+						// the map being built must flow into maccPerms
+						keys[constant.StringVal(k.Value)] = true
+					}
+				}
+			}
+		}
+	}
+	for _, need := range []string{"enterprise", "stream"} {
+		if !keys[need] {
+			bad = append(bad, "module account "+need+" is not a key of a map literal in app's initialiser (maccPerms)")
+		}
+	}
+	fn := sp.Func("BlockedAddresses")
+	if fn == nil {
+		bad = append(bad, "app.BlockedAddresses not found")
+	} else {
+		ranged := false
+		for _, b := range fn.Blocks {
+			for _, in := range b.Instrs {
+				switch x := in.(type) {
+				case *ssa.Range:
+					if u, ok := x.X.(*ssa.UnOp); ok {
+						if g, ok := u.X.(*ssa.Global); ok && g.Name() == "maccPerms" {
+							ranged = true
+						}
+					}
+				case *ssa.Call:
+					if bi, ok := x.Common().Value.(*ssa.Builtin); ok && bi.Name() == "delete" {
+						name, ok := traceModuleAddressString(x.Common().Args[1])
+						if !ok || name != "gov" {
+							bad = append(bad, "BlockedAddresses deletes an entry other than the gov module account at "+posOf(p, in))
+						}
+					}
+				}
+			}
+		}
+		if !ranged {
+			bad = append(bad, "BlockedAddresses does not range over maccPerms")
+		}
+	}
+	// the bank keeper must be given BlockedAddresses()
+	okBank := false
+	for _, f := range repoFuncsIn(p, []string{modPfx + "app"}) {
+		for _, c := range callsOf(f) {
+			if strings.HasSuffix(c.callee, "x/bank/keeper.NewBaseKeeper") {
+				for _, a := range c.instr.(ssa.CallInstruction).Common().Args {
+					if call, ok := a.(*ssa.Call); ok {
+						if sc := call.Common().StaticCallee(); sc != nil && sc.String() == modPfx+"app.BlockedAddresses" {
+							okBank = true
+						}
+					}
+				}
+			}
+		}
+	}
+	if !okBank {
+		bad = append(bad, "bank keeper is not constructed with app.BlockedAddresses()")
+	}
+	return []*FrameResult{res("escrow-accounts-blocked", "the enterprise and stream module accounts are module accounts (maccPerms), BlockedAddresses blocks every module account except gov, and the bank keeper is built with it: user transfers cannot credit the escrows", bad)}
+}
+
+// ---------------------------------------------------------------- C20 / C17 read-only queries
+
+func storeWriters(p *Program) map[string]bool {
+	// functions that (transitively, through static calls inside the repository) write a KVStore or call the bank's mutators
+	direct := map[string]bool{}
+	calls := map[string][]string{}
+	for fn := range ssautil.AllFunctions(p.prog) {
+		if fn.Pkg == nil || !p.isRepoPkg(fn.Pkg.Pkg.Path()) || len(fn.Blocks) == 0 {
+			continue
+		}
+		for _, c := range callsOf(fn) {
+			if c.invoke {
+				parts := strings.Split(c.callee, ").")
+				m := parts[len(parts)-1]
+				if strings.Contains(c.callee, "KVStore") && (m == "Set" || m == "Delete") {
+					direct[fn.String()] = true
+				}
+				if strings.Contains(c.callee, "BankKeeper") && (strings.HasPrefix(m, "Send") || strings.HasPrefix(m, "Mint") || strings.HasPrefix(m, "Burn") || strings.HasPrefix(m, "Delegate") || strings.HasPrefix(m, "Undelegate")) {
+					direct[fn.String()] = true
+				}
+			} else {
+				calls[fn.String()] = append(calls[fn.String()], c.callee)
+			}
+		}
+		for _, af := range fn.AnonFuncs {
+			calls[fn.String()] = append(calls[fn.String()], af.String())
+		}
+	}
+	w := map[string]bool{}
+	for k := range direct {
+		w[k] = true
+	}
+	for changed := true; changed; {
+		changed = false
+		for f, cs := range calls {
+			if w[f] {
+				continue
+			}
+			for _, c := range cs {
+				if w[c] {
+					w[f] = true
+					changed = true
+					break
+				}
+			}
+		}
+	}
+	return w
+}
+
+func frameReadOnlyQueries(p *Program, cs *ContractSet) []*FrameResult {
+	w := storeWriters(p)
+	var bad []string
+	n := 0
+	for _, fn := range repoFuncsIn(p, keeperPkgs) {
+		pos := p.fset.Position(fn.Pos())
+		base := pos.Filename[strings.LastIndex(pos.Filename, "/")+1:]
+		if !(strings.HasPrefix(base, "grpc_query") || strings.HasPrefix(base, "query") || strings.HasPrefix(base, "legacy_querier")) {
+			continue
+		}
+		n++
+		if w[fn.String()] {
+			bad = append(bad, fmt.Sprintf("%s (in %s) can reach a store or bank write", shortFn(fn.String()), base))
+		}
+	}
+	if n == 0 {
+		bad = append(bad, "no query handler found")
+	}
+	return []*FrameResult{res("query-handlers-never-write", fmt.Sprintf("none of the %d functions in the grpc_query/query/legacy_querier files of the four keepers can reach KVStore.Set/Delete or a bank mutator through static calls", n), bad)}
+}
+
+// ---------------------------------------------------------------- C05 / C04 writers of the locked-eFUND books
+
+func callersOf(p *Program, suffix string) []string {
+	var out []string
+	for fn := range ssautil.AllFunctions(p.prog) {
+		if fn.Pkg == nil || !p.isRepoPkg(fn.Pkg.Pkg.Path()) || isTestOrTooling(fn, p) {
+			continue
+		}
+		for _, c := range callsOf(fn) {
+			if strings.HasSuffix(c.callee, suffix) {
+				out = append(out, shortFn(fn.String()))
+			}
+		}
+	}
+	sort.Strings(out)
+	return uniq(out)
+}
+
+func expectCallers(p *Program, callee string, allowed ...string) []string {
+	var bad []string
+	for _, c := range callersOf(p, callee) {
+		ok := false
+		for _, a := range allowed {
+			if strings.HasSuffix(c, a) {
+				ok = true
+			}
+		}
+		if !ok {
+			bad = append(bad, c+" calls "+callee)
+		}
+	}
+	return bad
+}
+
+func frameLockedWriters(p *Program, cs *ContractSet) []*FrameResult {
+	var bad []string
+	bad = append(bad, expectCallers(p, ").UnlockCoinsForFees", "CheckLockedUndDecorator).AnteHandle")...)
+	bad = append(bad, expectCallers(p, "Keeper).decrementLockedUnd", "Keeper).UnlockCoinsForFees")...)
+	bad = append(bad, expectCallers(p, "Keeper).incrementSpentEFUND", "Keeper).UnlockCoinsForFees")...)
+	bad = append(bad, expectCallers(p, "Keeper).incrementLockedUnd", "Keeper).MintCoinsAndLock")...)
+	bad = append(bad, expectCallers(p, "Keeper).MintCoinsAndLock", "Keeper).ProcessAcceptedPurchaseOrders")...)
+	bad = append(bad, expectCallers(p, "Keeper).SetLockedUndForAccount", "Keeper).incrementLockedUnd", "Keeper).decrementLockedUnd", "enterprise.InitGenesis")...)
+	bad = append(bad, expectCallers(p, "Keeper).SetTotalLockedUnd", "Keeper).incrementLockedUnd", "Keeper).decrementLockedUnd", "enterprise.InitGenesis")...)
+	bad = append(bad, expectCallers(p, "Keeper).SetSpentEFUNDForAccount", "Keeper).incrementSpentEFUND", "enterprise.InitGenesis")...)
+	bad = append(bad, expectCallers(p, "Keeper).SetTotalSpentEFUND", "Keeper).incrementSpentEFUND", "enterprise.InitGenesis")...)
+	bad = append(bad, expectCallers(p, "Keeper).ProcessAcceptedPurchaseOrders", "enterprise.BeginBlocker")...)
+	return []*FrameResult{res("locked-efund-books-writers", "the locked/spent eFUND books are written only along BeginBlocker -> ProcessAcceptedPurchaseOrders -> MintCoinsAndLock -> incrementLockedUnd and AnteHandle -> UnlockCoinsForFees -> decrement/incrementSpent (plus InitGenesis)", bad)}
+}
+
+// ---------------------------------------------------------------- C18: the store is addressed only through the key builders
+
+func frameStoreKeys(p *Program, cs *ContractSet) []*FrameResult {
+	var bad []string
+	for _, fn := range repoFuncsIn(p, keeperPkgs) {
+		for _, b := range fn.Blocks {
+			for _, in := range b.Instrs {
+				call, ok := in.(ssa.CallInstruction)
+				if !ok || !call.Common().IsInvoke() {
+					continue
+				}
+				com := call.Common()
+				if !strings.Contains(com.Value.Type().String(), "KVStore") {
+					continue
+				}
+				m := com.Method.Name()
+				if m != "Get" && m != "Has" && m != "Set" && m != "Delete" {
+					continue
+				}
+				if !keyFromBuilder(com.Args[0]) {
+					bad = append(bad, fmt.Sprintf("%s: store.%s key at %s is not the result of a types key builder or a types prefix variable", shortFn(fn.String()), m, posOf(p, in)))
+				}
+			}
+		}
+	}
+	return []*FrameResult{res("store-keys-come-from-key-builders", "every KVStore Get/Has/Set/Delete in the four keepers uses a key that is directly the result of a x/<module>/types key builder or one of its key variables", bad)}
+}
+
+func keyFromBuilder(v ssa.Value) bool {
+	switch x := v.(type) {
+	case *ssa.Call:
+		if c := x.Common().StaticCallee(); c != nil && c.Pkg != nil {
+			return strings.HasSuffix(c.Pkg.Pkg.Path(), "/types") && strings.HasPrefix(c.Pkg.Pkg.Path(), repoModule)
+		}
+	case *ssa.UnOp:
+		if g, ok := x.X.(*ssa.Global); ok {
+			return strings.HasSuffix(g.Pkg.Pkg.Path(), "/types") && strings.HasPrefix(g.Pkg.Pkg.Path(), repoModule)
+		}
+	case *ssa.Phi:
+		for _, e := range x.Edges {
+			if !keyFromBuilder(e) {
+				return false
+			}
+		}
+		return true
+	case *ssa.ChangeType:
+		return keyFromBuilder(x.X)
+	}
+	return false
+}
+
+// onlyFeedsTelemetry: the result of the call is used solely as an argument of telemetry.* calls.
+func onlyFeedsTelemetry(in ssa.Instruction) bool {
+	v, ok := in.(ssa.Value)
+	if !ok {
+		return false
+	}
+	refs := v.Referrers()
+	if refs == nil || len(*refs) == 0 {
+		return false
+	}
+	for _, r := range *refs {
+		if _, dbg := r.(*ssa.DebugRef); dbg {
+			continue
+		}
+		ci, ok := r.(ssa.CallInstruction)
+		if !ok {
+			return false
+		}
+		c := ci.Common().StaticCallee()
+		if c == nil || c.Pkg == nil || c.Pkg.Pkg.Path() != "github.com/cosmos/cosmos-sdk/telemetry" {
+			return false
+		}
+	}
+	return true
 }
